@@ -88,6 +88,7 @@ type Addr struct {
 	global *ssa.Global
 	typ    types.Type // type of the root object
 	path   []step
+	reinterp types.Type // non-nil: the location is read through an unsafe re-view as this type
 	text   string // canonical rendering (for `on` filters), best effort
 }
 
@@ -424,7 +425,11 @@ func (g *Gen) wfFact(v Val, st *State) string {
 		}
 	case KSlice:
 		if g.bv {
-			return fmt.Sprintf("(and (>= (sl.arr %[1]s) 0) (bvsle %[2]s (sl.len %[1]s)) (bvsle (sl.len %[1]s) (sl.cap %[1]s)) (bvsle %[2]s (sl.off %[1]s)) (bvslt (sl.cap %[1]s) #x0000100000000000) (bvslt (sl.off %[1]s) #x0000100000000000) (=> (= (sl.arr %[1]s) 0) (= (sl.cap %[1]s) %[2]s)))", v.T, g.idxLit(0))
+			f := fmt.Sprintf("(and (>= (sl.arr %[1]s) 0) (bvsle %[2]s (sl.len %[1]s)) (bvsle (sl.len %[1]s) (sl.cap %[1]s)) (bvsle %[2]s (sl.off %[1]s)) (bvslt (sl.cap %[1]s) #x0000100000000000) (bvslt (sl.off %[1]s) #x0000100000000000) (=> (= (sl.arr %[1]s) 0) (= (sl.cap %[1]s) %[2]s)))", v.T, g.idxLit(0))
+			if st != nil {
+				f = sAnd(f, fmt.Sprintf("(<= (sl.arr %s) %s)", v.T, st.alloc))
+			}
+			return f
 		}
 		f := fmt.Sprintf("(and (>= (sl.arr %[1]s) 0) (<= 0 (sl.len %[1]s)) (<= (sl.len %[1]s) (sl.cap %[1]s)) (<= 0 (sl.off %[1]s)) (<= (+ (sl.off %[1]s) (sl.cap %[1]s)) 4611686018427387904) (=> (= (sl.arr %[1]s) 0) (= (sl.cap %[1]s) 0)))", v.T)
 		if st != nil {
